@@ -215,17 +215,23 @@ class RSAKey(PKey):
                 raise SSHException(str(e))
         elif pkformat == self._PRIVATE_KEY_FORMAT_OPENSSH:
             n, e, d, iqmp, p, q = self._uint32_cstruct_unpack(data, "iiiiii")
-            public_numbers = rsa.RSAPublicNumbers(e=e, n=n)
-            key = rsa.RSAPrivateNumbers(
-                p=p,
-                q=q,
-                d=d,
-                dmp1=d % (p - 1),
-                dmq1=d % (q - 1),
-                iqmp=iqmp,
-                public_numbers=public_numbers,
-            ).private_key(default_backend())
+            # NOTE: corrupt files, or files of another key type, yield
+            # numbers which are not an RSA key.
+            try:
+                public_numbers = rsa.RSAPublicNumbers(e=e, n=n)
+                key = rsa.RSAPrivateNumbers(
+                    p=p,
+                    q=q,
+                    d=d,
+                    dmp1=d % (p - 1),
+                    dmq1=d % (q - 1),
+                    iqmp=iqmp,
+                    public_numbers=public_numbers,
+                ).private_key(default_backend())
+            except (ValueError, TypeError, ZeroDivisionError) as exc:
+                raise SSHException(str(exc))
         else:
             self._got_bad_key_format_id(pkformat)
-        assert isinstance(key, rsa.RSAPrivateKey)
+        if not isinstance(key, rsa.RSAPrivateKey):
+            raise SSHException("not an RSA private key")
         self.key = key
